@@ -26,6 +26,10 @@
    that resume it with [opts2]); the number of runs must agree and every run is compared like a
    CaseGraph.
 
+   CaseRunsF: a CaseRuns in which one resuming call fails before anything is restored (a fault of the
+   checkpoint store; a newer build of the graph in which the pending nodes have other keys): that run is
+   the graph's start and the graph's error, nothing else, and the sequence ends with it.
+
    CaseStream: one stream payload handed to n-1 handlers and the flow through the public
    callbacks.OnStartWithStreamInput / OnEndWithStreamOutput; afterwards the harness performs a
    script of recv / close actions on the n readers, in the given global order.  Observed: what
@@ -93,6 +97,14 @@ Inductive ccase : Type :=
 | CaseRuns (globals : list handler) (needs : list (handler * list N)) (opts opts2 : list copt)
            (is_stream : bool) (g : ukey) (ginf : info) (plan : list (list rnode))
            (obs : list (list (N * list (N * N)) * list (N * list N)))
+| CaseRunsF (globals : list handler) (needs : list (handler * list N)) (opts opts2 : list copt)
+            (fault : nat)
+            (is_stream : bool) (g : ukey) (ginf : info) (plan : list (list rnode))
+            (obs : list (list (N * list (N * N)) * list (N * list N)))
+    (* CaseRuns in which the [fault]-th call of the sequence (counted from 0, > 0: a call that resumes)
+       fails in the prologue of runner.run: the checkpoint store fails, or the call is made by another
+       build of the graph that has no node for the pending tasks of the checkpoint
+       ([with_fault] / [prologue_fault] of Model/CallbacksResume.v); 0 = no such call *)
 | CaseStream (globals locals : list handler) (t : timing) (order : list handler)
              (src : list N) (acts : list cact) (obs : list (list N)) (closed : option bool).
     (* order = the handlers in the order in which they were handed their copy (copy k goes
@@ -161,6 +173,9 @@ Definition bad (c : ccase) : bool :=
       (* the first run is called with opts, the runs that resume it with opts2 *)
       negb (runs_ok (mk_world globals needs) is_stream g ginf
                     (run_seqf (S (total_intr plan)) (two_opts opts opts2) plan) obs)
+  | CaseRunsF globals needs opts opts2 fault is_stream g ginf plan obs =>
+      negb (runs_ok (mk_world globals needs) is_stream g ginf
+                    (run_seqf (S (total_intr plan)) (with_fault fault (two_opts opts opts2)) plan) obs)
   | CaseStream globals locals t order src acts obs closed =>
       (* On: the selected handlers in invocation order; OnWithStreamHandle: one copy each, one more for the flow *)
       let w := mk_world globals [] in
